@@ -14,6 +14,7 @@ Decided statically (the glue the unit tests of the pieces never see):
  R5 tablet feedback: every EXECUTE response is passed to update_tablets_from_response with the statement's table spec.
 Not decided: that the pieces are right (token C03, replicas C04, plan C05, shard arithmetic C11); reachability at run time.
 """
+from ..inline import inline_view
 from ..mir import AnchorLost
 from ..util import df_of, fn_short, in_set, backward_slice, operand_path, path_last, callers_keys
 from .c20 import slice_fields
@@ -261,7 +262,7 @@ def r6(ctx, facts):
 
 
 def check(ctx):
-    facts = ctx.facts("default")
+    facts = inline_view(ctx.facts("default"))
     for fn in (r1, r2, r3, r4, r5, r6):
         try:
             fn(ctx, facts)
